@@ -286,14 +286,14 @@ CHECKS["C09"] = dict(
          "crash image, every flag set and every trace accepted by the resumed automaton from the repair of that image: no sequence action "
          "with a durable attempt-bearing result that repair turns into Completed/Failed is invoked, nothing is invoked inside a durably "
          "Completed or Failed sequence, block or plan) — the well-formedness of crash images is PROVED as an invariant of the engine "
-         "automaton (hinv + C06's pinv), so the first crash needs no premise; c09_crash_chain(_full) for any number of crashes, "
-         "unconditional for two processes. Every real recovery (each write prefix of each recorded run incl. an overrun family, sampled "
+         "automaton (hinv + C06's pinv) and of the resumed automaton (coq/chain), so no premise on any image remains: "
+         "c09_crash_chain_unconditional for any number of crashes. Every real recovery (each write prefix of each recorded run incl. an overrun family, sampled "
          "double crashes) must be accepted by the resumed automaton and satisfy the independent monitor mon_noreexec (vm_compute); the "
          "crash image is checked equal to the store read-back and well-formed on every case; the repair functions have a direct "
          "function-equality correspondence.",
-    note=RECOVER_NOTE + "for the THIRD and later process of a crash chain, well-formedness (img_wf0) of the image left by a crashed recovery "
-         "remains a premise (proved negative: the resumed automaton does not preserve the stronger img_wf); it is evaluated on every "
-         "real double-crash image and has never failed",
+    note=RECOVER_NOTE + "the crash chain is unconditional for ANY number of crashes (coq/chain: c09_crash_chain_unconditional: img_wf0 is an "
+         "invariant of the resumed automaton until the terminal plan write, for every deviation flag set; after that write a plan is never "
+         "resumed); the harness samples single and double crashes only",
     technique="Coq proof (invariants of the engine and resumed automata + repair facts derived from coq/recover) + trace-acceptance correspondence on real recoveries + direct function equality for the repair functions",
     design="DESIGN.md section 6 C09, section 13")
 CHECKS["C10"] = dict(
